@@ -120,6 +120,8 @@ func runC06(c *Ctx) {
 	}
 	prattParselets(c, m)
 	leftOperandPassthrough(c, m)
+	c.shared("R6", "C13/R1", "member access binds tighter than binary `-`: an identifier is a run of letters, digits and '_' only, so `$.a-b` is `($.a) - b` and never the one name `a-b`", keyHas("identifier-class"), runC13)
+	c.shared("R7", "C14/R4", "a root selector means what its text says: it reaches the expression parser unchanged (nothing is pasted in front of a leading parenthesis)", keyHas("root-list-contents"), func(s *Ctx) { rootsPerValue(s, "R4") })
 
 	// R2: the matrix
 	cells, bad := 0, 0
